@@ -279,6 +279,14 @@ func endpointMenu(good world.Response, hdrKey string) []struct {
 		{"short-fields", body([]byte(`{"tcbInfo":{"id":"TDX","version":3,"fmspc":"","pceId":"","tdxModule":{"mrsigner":"","attributes":"","attributesMask":""},"tcbLevels":[{"tcb":{"sgxtcbcomponents":[],"tdxtcbcomponents":[{"svn":1}]},"tcbStatus":"UpToDate"}]},"enclaveIdentity":{"id":"TD_QE","version":2,"miscselect":"00","miscselectMask":"00","attributes":"00","attributesMask":"00","mrsigner":"","tcbLevels":[{"tcb":{},"tcbStatus":"UpToDate"}]},"signature":""}`))},
 		{"unknown-status", body([]byte(`{"tcbInfo":{"id":"TDX","version":3,"tcbLevels":[{"tcbStatus":"Fine"}]},"enclaveIdentity":{"id":"TD_QE","version":2,"tcbLevels":[{"tcbStatus":7}]},"signature":"00"}`))},
 		{"non-der", body([]byte("-----BEGIN X509 CRL-----\nAAAA\n-----END X509 CRL-----\n"))},
+		{"pem-begin-line-only", body([]byte("-----BEGIN X509 CRL-----\n"))},
+		{"pem-begin-without-newline", body([]byte("-----BEGIN X509 CRL-----"))},
+		{"pem-no-end-line", body([]byte("-----BEGIN X509 CRL-----\nAAAA\n"))},
+		{"pem-corrupt-base64", body([]byte("-----BEGIN X509 CRL-----\n!!!!not base64!!!!\n-----END X509 CRL-----\n"))},
+		{"pem-end-label-differs", body([]byte("-----BEGIN X509 CRL-----\nAAAA\n-----END CERTIFICATE-----\n"))},
+		{"pem-of-the-genuine-body", body(world.PEMBlock("X509 CRL", good.Body))},
+		{"pem-headers-only", body([]byte("-----BEGIN X509 CRL-----\nProc-Type: 4,ENCRYPTED\n\n-----END X509 CRL-----\n"))},
+		{"text-that-starts-like-json-then-pem", body([]byte("{\"a\":1}\n-----BEGIN X509 CRL-----\n"))},
 		{"der-truncated", body(good.Body[:len(good.Body)/2])},
 		{"header-absent", hdr(nil)},
 		{"header-empty-map", hdr(map[string][]string{})},
